@@ -222,6 +222,25 @@ def dcClosed (sid : Nat) : M Unit := do
     modE fun e => { e with dataChannels := dictDel e.dataChannels sid }
     setReady i 3
 
+/-- `_transmit_reconfig()`. A stream is only reset once nothing is queued for it in `_data_channel_queue`
+(`queued` holds `channel.id` of every queue entry, `None` for a channel without id; the queue holds
+channel objects, here indices into `chans` - an index outside `chans` cannot occur and counts as `None`). -/
+def transmitReconfig : M Unit := do
+  let e ← getE
+  if e.assoc = .established && !e.reconfigQueue.isEmpty && e.reconfigRequest.isNone then
+    let queued : List (Option Nat) := e.dcQueue.map fun q => (e.chans[q.1]?).bind (·.id)
+    let streams := (e.reconfigQueue.filter fun x => !queued.contains (some x)).take RECONFIG_MAX_STREAMS
+    if streams.isEmpty then pure ()
+    else
+      let param := (e.reconfigRequestSeq, e.reconfigResponseSeq, tsn_minus_one e.tx.localTsn, streams)
+      setE { e with reconfigQueue := e.reconfigQueue.filter fun x => !streams.contains x
+                    reconfigRequest := some param
+                    reconfigRequestSeq := tsn_plus_one e.reconfigRequestSeq }
+      let p := RcParam.resetOut param.1.toNat param.2.1.toNat param.2.2.1.toNat streams
+      let b ← liftO p.serialize
+      sendChunk (.params .reconfig 0 [(SCTP_STR_RESET_OUT_REQUEST, b)])
+      rcStart
+
 /-- `_data_channel_flush()`: the `while self._data_channel_queue and not self._outbound_queue` loop
 (each iteration pops one queue entry, so `len(queue) + 1` iterations of fuel are never exhausted). -/
 def flushLoop : Nat → M Unit
@@ -235,8 +254,9 @@ def flushLoop : Nat → M Unit
     else
       setE { e with dcQueue := rest }
       let c ← chanGet i
-      let sid ← match c.id with
-        | some s => pure s
+      -- `none`: every stream id of the local parity is in use, the channel is closed (`continue`)
+      let sid? : Option Nat ← match c.id with
+        | some s => pure (some s)
         | none =>
           let start ← match e.dcId with
             | some s => pure s
@@ -246,37 +266,34 @@ def flushLoop : Nat → M Unit
             | 0 => s
             | f + 1 => if (dictGet e.dataChannels s).isSome then pick f (s + 2) else s
           let s := pick (e.dataChannels.length + 1) start
-          modE fun e => { e with dataChannels := e.dataChannels ++ [(s, i)] }
-          chanSet i { c with id := some s }
-          pure s
-      if ppid = WEBRTC_DCEP then
-        sendData sid ppid data none none true
-      else
-        let e ← getE
-        let expiry : Option Int := match c.maxPacketLifeTime with
-          | some l => if l ≠ 0 then some (1000 * e.now + 1024 * (l : Int)) else none
-          | none => none
-        sendData sid ppid data expiry (c.maxRetransmits.map fun m => (m : Int)) c.ordered
-        addBuffered i (-(data.length : Int))
+          if s > 65535 then
+            setReady i 3
+            pure none
+          else
+            modE fun e => { e with dataChannels := e.dataChannels ++ [(s, i)] }
+            chanSet i { c with id := some s }
+            pure (some s)
+      match sid? with
+      | none => pure ()
+      | some sid =>
+        if ppid = WEBRTC_DCEP then
+          sendData sid ppid data none none true
+        else
+          let e ← getE
+          let expiry : Option Int := match c.maxPacketLifeTime with
+            | some l => if l ≠ 0 then some (1000 * e.now + 1024 * (l : Int)) else none
+            | none => none
+          sendData sid ppid data expiry (c.maxRetransmits.map fun m => (m : Int)) c.ordered
+          addBuffered i (-(data.length : Int))
       flushLoop fuel
 
 def flush : M Unit := do
   let e ← getE
-  if e.assoc ≠ .established then pure () else flushLoop (e.dcQueue.length + 1)
-
-/-- `_transmit_reconfig()`. -/
-def transmitReconfig : M Unit := do
-  let e ← getE
-  if e.assoc = .established && !e.reconfigQueue.isEmpty && e.reconfigRequest.isNone then
-    let streams := e.reconfigQueue.take RECONFIG_MAX_STREAMS
-    let param := (e.reconfigRequestSeq, e.reconfigResponseSeq, tsn_minus_one e.tx.localTsn, streams)
-    setE { e with reconfigQueue := e.reconfigQueue.drop RECONFIG_MAX_STREAMS
-                  reconfigRequest := some param
-                  reconfigRequestSeq := tsn_plus_one e.reconfigRequestSeq }
-    let p := RcParam.resetOut param.1.toNat param.2.1.toNat param.2.2.1.toNat streams
-    let b ← liftO p.serialize
-    sendChunk (.params .reconfig 0 [(SCTP_STR_RESET_OUT_REQUEST, b)])
-    rcStart
+  if e.assoc ≠ .established then pure ()
+  else
+    flushLoop (e.dcQueue.length + 1)
+    -- stream resets which were waiting for queued data can go out now
+    if !(← getE).reconfigQueue.isEmpty then transmitReconfig
 
 /-- `_data_channel_close(channel)`. -/
 def dcClose (i : Nat) : M Unit := do
